@@ -130,7 +130,9 @@ const REPLACEMENTS: &[&str] = &["END", ";", "42", "-0.5", "\"abc", "MACRO", "PIN
     // numbers at the edges of the 96-bit decimal type behind every LEF number
     "79228162514264337593543950335", "-79228162514264337593543950335", "99999999999999999999999999999", "7922816251426433759354395033.5", "0.0000000000000000000000000001", "123456789012345678901234567890123456789",
     // words of few characters but many bytes (keyword lookup works on the text of the token)
-    "中文字符中文字符中文字符中文", "оченьдлинноеслововкириллице", "ＭＡＣＲＯ"];
+    "中文字符中文字符中文字符中文", "оченьдлинноеслововкириллице", "ＭＡＣＲＯ",
+    // statements the reader documents as unsupported
+    "MAXVIASTACK", "VIARULE", "NONDEFAULTRULE", "GENERATE", "MANUFACTURINGGRID", "CLEARANCEMEASURE", "PROPERTYDEFINITIONS"];
 fn faults_per_token() -> u64 {
     3 + REPLACEMENTS.len() as u64
 }
